@@ -8,9 +8,11 @@ VARIABLES scn, file, out, cls
 
 vars == <<scn, file, out, cls>>
 
-LayA(ver, dt, mode, bo, widths, rk, N, off, endc, pad, ev, stext, an) ==
+LayN(ver, dt, mode, bo, widths, rk, N, off, endc, pad, ev, stext, an, nx) ==
   [ver |-> ver, dt |-> dt, mode |-> mode, bo |-> bo, widths |-> widths, rk |-> rk, N |-> N,
-   off |-> off, endc |-> endc, pad |-> pad, ev |-> ev, stext |-> stext, an |-> an]
+   off |-> off, endc |-> endc, pad |-> pad, ev |-> ev, stext |-> stext, an |-> an, nx |-> nx]
+LayA(ver, dt, mode, bo, widths, rk, N, off, endc, pad, ev, stext, an) ==
+  LayN(ver, dt, mode, bo, widths, rk, N, off, endc, pad, ev, stext, an, 0)
 Lay(ver, dt, mode, bo, widths, rk, N, off, endc, pad, ev, stext) ==
   LayA(ver, dt, mode, bo, widths, rk, N, off, endc, pad, ev, stext, "none")
 
@@ -28,9 +30,10 @@ IntLayouts(vers, bos, WS, RK, Ns, pads, evs) ==
 WellFormedI(l) == Len(l.rk) = Len(l.widths) /\ (l.off = "text" => IsV3(l.ver))
 
 AnalysisLayouts ==     \* an ANALYSIS segment after DATA, located through the HEADER or (3.x) through TEXT
-  {LayA(v, dt, "L", "1234", ws, [p \in 1..Len(ws) |-> "pow"], n, off, ec, pad, "asc", st, an) :
+  {LayN(v, dt, "L", "1234", ws, [p \in 1..Len(ws) |-> "pow"], n, off, ec, pad, "asc", st, an, nx) :
      v \in {"2.0", "3.0", "3.1"}, dt \in {"I", "F"}, ws \in {<<16, 16>>, <<32>>, <<8, 24>>}, n \in {0, 2},
-     off \in {"header", "text"}, ec \in {"last", "onepast"}, pad \in {0, 3}, st \in BOOLEAN, an \in {"header", "text"}}
+     off \in {"header", "text"}, ec \in {"last", "onepast"}, pad \in {0, 3}, st \in BOOLEAN, an \in {"header", "text"},
+     nx \in {0, 512}}
 FloatLayouts ==
   {Lay(v, dt, "L", bo, ws, [p \in 1..Len(ws) |-> "pow"], n, off, ec, pad, "asc", st) :
      v \in {"2.0", "3.0", "3.1"}, dt \in {"F", "D"}, bo \in {"4321", "21", "1234", "12"},
@@ -118,6 +121,7 @@ DecodeExact ==
      /\ out.data = MaskedEvents(scn.lay)
      /\ out.text = WrittenText(scn.lay, NoFault)
      /\ out.an = (IF HasAnalysis(scn.lay) THEN DictOf(FlatToks(APairs)) ELSE {})
+     /\ out.nxwarn = (scn.lay.nx # 0) /\ ~out.anwarn
 UnsupportedRefused == (out.k # "todo" /\ ~Supported(scn.lay)) => out.k = "refused"
 
 (* C16: a damaged file is refused, or read as exactly what it holds *)
